@@ -192,3 +192,92 @@ Definition spec_check_header (q lgwin : Z) (large cat app dict magic : bool) (hi
              end
       end
   end.
+
+(* ======================================================================================
+   C08: the remaining entropy-free meta-block forms of RFC 7932 section 9.2, and a reader for
+   streams that consist of such blocks only ("stored" streams).
+   ====================================================================================== *)
+
+(* ---- an uncompressed meta-block: ISLAST = 0, MNIBBLES in 4..6, MLEN - 1, ISUNCOMPRESSED = 1,
+   padding to the byte boundary (zero bits), MLEN literal bytes.
+   Result: (the bytes, position after them, rest). ---- *)
+Definition rfc_read_uncompressed_block (pos : N) (l : bits) : option (list N * N * bits) :=
+  match read_bits 1 l with
+  | None => None
+  | Some (islast, l1) =>
+    if negb (islast =? 0) then None else
+    match read_bits 2 l1 with
+    | None => None
+    | Some (code, l2) =>
+      if code =? 3 then None else        (* MNIBBLES = 0: a metadata block, not this form *)
+      let mnibbles := 4 + code in
+      match read_bits (N.to_nat (4 * mnibbles)) l2 with
+      | None => None
+      | Some (mlenm1, l3) =>
+        (* "if MNIBBLES is greater than 4, and the last nibble is all zeros, then the stream
+           should be rejected as invalid" *)
+        if (4 <? mnibbles) && (mlenm1 / 2 ^ (4 * (mnibbles - 1)) =? 0) then None else
+        match read_bits 1 l3 with
+        | None => None
+        | Some (isuncompressed, l4) =>
+          if negb (isuncompressed =? 1) then None else
+          match read_align (pos + 3 + 4 * mnibbles + 1) l4 with
+          | None => None
+          | Some (pos1, l5) =>
+            match read_bytes (N.to_nat (mlenm1 + 1)) l5 with
+            | None => None
+            | Some (data, l6) => Some (data, pos1 + 8 * (mlenm1 + 1), l6)
+            end
+          end
+        end
+      end
+    end
+  end.
+
+(* ---- the empty last meta-block: ISLAST = 1, ISLASTEMPTY = 1 ---- *)
+Definition rfc_read_last_empty (pos : N) (l : bits) : option (N * bits) :=
+  match read_bits 1 l with
+  | Some (islast, l1) =>
+    if negb (islast =? 1) then None else
+    match read_bits 1 l1 with
+    | Some (isempty, l2) => if isempty =? 1 then Some (pos + 2, l2) else None
+    | None => None
+    end
+  | None => None
+  end.
+
+(* ---- a stream made of metadata, uncompressed and one final empty meta-block.
+   After the last meta-block the rest of the final byte must be zero and nothing may follow.
+   Result: the decoded bytes. ---- *)
+Fixpoint rfc_read_stored_blocks (fuel : nat) (pos : N) (l : bits) (acc : list N) : option (list N) :=
+  match fuel with
+  | O => None
+  | S f =>
+    match rfc_read_last_empty pos l with
+    | Some (pos1, l1) =>
+      match read_align pos1 l1 with
+      | Some (_, []) => Some acc
+      | _ => None
+      end
+    | None =>
+      match rfc_read_metadata_block pos l with
+      | Some (_, pos1, l1) => rfc_read_stored_blocks f pos1 l1 acc
+      | None =>
+        match rfc_read_uncompressed_block pos l with
+        | Some (data, pos1, l1) => rfc_read_stored_blocks f pos1 l1 (acc ++ data)
+        | None => None
+        end
+      end
+    end
+  end.
+
+Definition rfc_read_stored_stream (stream : list N) : option (list N) :=
+  match rfc_read_wbits (bytes_to_bits stream) with
+  | Some (_, _, nb, rest) => rfc_read_stored_blocks (S (length stream)) nb rest []
+  | None => None
+  end.
+
+(* size of an uncompressed meta-block header in bits, by MLEN (1 .. 2^24) *)
+Definition rfc_uncompressed_header_bits (mlen : N) : N :=
+  let mnibbles := if mlen <=? 2 ^ 16 then 4 else if mlen <=? 2 ^ 20 then 5 else 6 in
+  1 + 2 + 4 * mnibbles + 1.
